@@ -272,7 +272,10 @@ def _parse_multi_typed(
     default = schema.get("default", NotPassed())
     schema = {key: val for key, val in schema.items() if key != "default"}
     if len(type_list) == 1:
-        return parse_element({**schema, "type": type_list[0]}, state)
+        single = {**schema, "type": type_list[0]}
+        if not isinstance(default, NotPassed):
+            single["default"] = default
+        return parse_element(single, state)
     return AnyOf(
         *(
             parse_element({**schema, "type": type_value}, state)
